@@ -6,6 +6,12 @@ import (
 	"github.com/goatcms/goatcore/varutil/goaterr"
 )
 
+// isValidNodeName reports whether name can be a node of a directory
+// ("", "." and ".." are path syntax, never nodes).
+func isValidNodeName(name string) bool {
+	return name != "" && name != "." && name != ".."
+}
+
 func splitContainsPath(p string) (dirNodePath []string, nodeName string, err error) {
 	nodePath := strings.Split(p, "/")
 	if len(nodePath) < 1 {
